@@ -18,6 +18,8 @@ type c18Avoid struct {
 	numberLikeStr bool // strings that read as numbers
 	wildDesc      bool // a wildcard immediately followed by a descent
 	longFloat     bool // floats ojg holds as json.Number (18 or more fraction digits)
+	signLedStr    bool // strings that start with a sign but are no numbers ("-x", "+")
+	backtickStr   bool // strings with a backtick
 }
 
 type c18Gen struct {
@@ -29,26 +31,41 @@ type c18Gen struct {
 }
 
 var c18Keys = []string{"a", "b", "c", "d", "key", "x1", "name", "Z_9"}
-var c18OddKeys = []string{"a b", "é", "日本", "", "k\"q", "k\\s", "1x", "a.b", "k\nl", "😀", "true", "null", "12", "[0]", "*", "$", "@", "a'b", "k:v", "{", "}"}
+var c18OddKeys = []string{"a b", "é", "日本", "", "k\"q", "k\\s", "1x", "a.b", "k\nl", "😀", "true", "null", "12", "[0]", "*", "$", "@", "a'b", "k:v", "{", "}", "-x", "+", "`k", "a-b", "false", "-1", "1.5", "a/b", "x~"}
 
 var c18Strings = []string{"", "x", "hello world", "true", "false", "null", "123", "-1", "1e5", "1.5", "a:b", "[x]", "{y}", "{", "}", "[", "]", ",",
 	"//c", "#h", "'q'", "\"dq\"", " lead", "trail ", "tab\there", "nl\nhere", "cr\rhere", "back\\slash", "sl/ash", "\x01\x02", "\x1f", "\x7f",
-	"é", "ß∂ƒ", "日本語", "😀", "a😀b", " ", "\ufeff", "<tag>&amp;", "@2024-01-02T03:04:05Z", "2024-01-02", "2024-01-02T03:04:05Z", "2024-02-29", "2024-01-02T03:04:05.123456789+02:00", "$", "@", "*", "..", "nil", "t", ":false"}
+	"é", "ß∂ƒ", "日本語", "😀", "a😀b", " ", "\ufeff", "<tag>&amp;", "@2024-01-02T03:04:05Z", "2024-01-02", "2024-01-02T03:04:05Z", "2024-02-29", "2024-01-02T03:04:05.123456789+02:00", "$", "@", "*", "..", "nil", "t", ":false",
+	"`tick", "a`b", "-x", "+x", ".x", "-", "+", ".", "a-b", "a+b", "x~y", "^", "|", "?", "~", "_", "-.", "1a", "0x10", "Infinity", "NaN", "+1",
+	"a/b", "<a>", "a&b", "a=b", "a;b", "a!b", "(a)", "%", "a%b", "word", "Word_2", "NULL", "True"}
 
 func (g *c18Gen) pick(xs []string) string { return xs[g.r.Intn(len(xs))] }
 
 func (g *c18Gen) key() string {
 	if g.r.Chance(15) {
-		return g.pick(c18OddKeys)
+		for {
+			k := g.pick(c18OddKeys)
+			// keys the SEN writers leave without quotes although they do not read back (known findings)
+			if g.text && g.avoidStr(strKind(k)) {
+				continue
+			}
+			return k
+		}
 	}
 	return g.pick(c18Keys)
+}
+
+// avoidStr: string kinds listed as known findings of the writers (composite documents avoid them).
+func (g *c18Gen) avoidStr(k string) bool {
+	return (g.avoid.keywordStr && k == "str-keyword") || (g.avoid.numberLikeStr && k == "str-number-like") ||
+		(g.avoid.signLedStr && k == "str-sign-led") || (g.avoid.backtickStr && k == "str-backtick")
 }
 
 func (g *c18Gen) str() string {
 	for {
 		s := g.str1()
 		k := strKind(s)
-		if g.text && ((g.avoid.keywordStr && k == "str-keyword") || (g.avoid.numberLikeStr && k == "str-number-like")) {
+		if g.text && g.avoidStr(k) {
 			continue
 		}
 		return s
